@@ -79,9 +79,29 @@ pub fn ordered_leaves(n: usize, swap: Option<usize>, partial: bool) -> Scenario 
 /// As `ordered_leaves`; bit (i % 64) of `zeros` set = leaf i is quantified `n_times(0)`: it reserves no
 /// position in the sequence and is never called, the leaves around it keep their order.
 pub fn ordered_leaves_with_zeros(n: usize, swap: Option<usize>, partial: bool, zeros: u64) -> Scenario {
-    let zero = |i: usize| (zeros >> (i % 64)) & 1 == 1;
+    ordered_leaves_mixed(n, swap, partial, zeros, 0)
+}
+
+/// As above; bit (i % 64) of `unordered` set = leaf i is an UNORDERED clause of another method with an exact
+/// count (`some_call(..)..n_times(1)` on method 4): it takes no position of the ordered sequence, wherever it sits.
+pub fn ordered_leaves_mixed(n: usize, swap: Option<usize>, partial: bool, zeros: u64, unordered: u64) -> Scenario {
+    let unord = |i: usize| (unordered >> (i % 64)) & 1 == 1;
+    let zero = |i: usize| !unord(i) && (zeros >> (i % 64)) & 1 == 1;
     let mut clauses = vec![];
     for i in 0..n {
+        if unord(i) {
+            clauses.push(ClauseSpec::Single {
+                method: 4,
+                entry: Entry::Some,
+                pat: PatternSpec {
+                    id: i as u16,
+                    mask: 1 << (i % 8),
+                    matcher: MatcherKind::FuncDebug,
+                    chain: vec![Seg { resp: Resp::Answers, quant: Quant::NTimes(1) }],
+                },
+            });
+            continue;
+        }
         clauses.push(ClauseSpec::Single {
             method: (i % 3) as u8,
             entry: Entry::Next,
@@ -93,13 +113,20 @@ pub fn ordered_leaves_with_zeros(n: usize, swap: Option<usize>, partial: bool, z
             },
         });
     }
-    let mut history: Vec<Call> =
-        (0..n).filter(|i| !zero(*i)).map(|i| Call { method: (i % 3) as u8, arg: (i % 8) as u8, via: 0 }).collect();
+    let mut history: Vec<Call> = (0..n)
+        .filter(|i| !zero(*i) && !unord(*i))
+        .map(|i| Call { method: (i % 3) as u8, arg: (i % 8) as u8, via: 0 })
+        .collect();
     if let Some(k) = swap {
         if k + 1 < history.len() {
             history.swap(k, k + 1);
             history.truncate(k + 1); // stop at the deviation
         }
+    }
+    // the unordered exact-count clauses are satisfied after the ordered walk (first pattern per argument answers;
+    // patterns with the same accept bit would shadow each other, so each argument is called once per clause with it)
+    for i in (0..n).filter(|i| unord(*i)) {
+        history.push(Call { method: 4, arg: (i % 8) as u8, via: 0 });
     }
     Scenario { partial, clauses, clones: 0, history, verify: VerifyMode::Drop }
 }
@@ -214,10 +241,14 @@ fn order_case() -> impl Strategy<Value = TreeCase> {
         proptest::option::weighted(0.4, 0..40usize),
         // zero-count leaves: none, sparse, or arbitrary
         prop_oneof![2 => Just(0u64), 1 => (any::<u64>(), any::<u64>()).prop_map(|(a, b)| a & b), 1 => any::<u64>()],
+        // unordered exact-count clauses of another method between the ordered leaves: none or sparse
+        prop_oneof![2 => Just(0u64), 2 => (any::<u64>(), any::<u64>(), any::<u64>()).prop_map(|(a, b, c)| a & b & c)],
     )
-        .prop_flat_map(|(n, partial, swap, zeros)| {
+        .prop_flat_map(|(n, partial, swap, zeros, unordered)| {
+            // a transposed call only makes sense in the purely ordered walk
+            let unordered = if swap.is_some() { 0 } else { unordered };
             let swap = swap.map(|k| k % n.max(1));
-            tree_strategy(n).prop_map(move |tree| TreeCase { scn: ordered_leaves_with_zeros(n, swap, partial, zeros), tree })
+            tree_strategy(n).prop_map(move |tree| TreeCase { scn: ordered_leaves_mixed(n, swap, partial, zeros, unordered), tree })
         })
 }
 
@@ -289,7 +320,7 @@ pub fn arity_sweep() -> Vec<TreeCase> {
     v
 }
 
-pub const RULE: &str = "arity-sweep = every tuple arity 0, 2..16 as a flat tuple of distinct ordered leaf clauses (accepted only in declaration order) with the in-order history, every adjacent transposition of it, one n_times(0) leaf at every position, and the same tuple nested between two further leaves, strict and partial: enumerated exhaustively. trees = random tuple trees (arity 0, 2..16, depth <= 4, up to 40 leaves) over the same leaves, with and without a transposed call, with and without n_times(0) leaves. offenders = generated consistent setups (C01-C04 style) with one offending clause (the opposite mode for an already mentioned method, or an empty stub) injected at a generated position of a random tree. compile-fail = builder chains about ordering/exactness that must not type-check (program-generation engine). Non-trivial = arity >= 6 or depth >= 2, or an offending clause; distinct = distinct case";
+pub const RULE: &str = "arity-sweep = every tuple arity 0, 2..16 as a flat tuple of distinct ordered leaf clauses (accepted only in declaration order) with the in-order history, every adjacent transposition of it, one n_times(0) leaf at every position, and the same tuple nested between two further leaves, strict and partial: enumerated exhaustively. trees = random tuple trees (arity 0, 2..16, depth <= 4, up to 40 leaves) over the same leaves, with and without a transposed call, with and without n_times(0) leaves, with and without unordered exact-count clauses of another method between the ordered leaves. offenders = generated consistent setups (C01-C04 style) with one offending clause (the opposite mode for an already mentioned method, or an empty stub) injected at a generated position of a random tree. compile-fail = builder chains about ordering/exactness that must not type-check (program-generation engine). Non-trivial = arity >= 6 or depth >= 2, or an offending clause; distinct = distinct case";
 
 pub fn run(ctx: &Ctx) -> Verdict {
     let mut v = Verdict::new("exploration", RULE);
